@@ -156,8 +156,28 @@ func c05module(c *core.Ctx, rng *core.Rng, mi int) {
 	var y strings.Builder
 	y.WriteString("module m { namespace \"urn:m\"; prefix m; revision 2020-01-01;\n")
 	nleaf := 40
+	directed := []string{"100..max", "min..-100", "min..max", "-5..5", "min..0 | 100..max"}
+	if mi == 0 {
+		nleaf = 9 * len(directed) // module 0: every numeric base × the directed open-ended restrictions
+	}
 	for li := 0; li < nleaf; li++ {
 		l := &c05leaf{name: fmt.Sprintf("l%d", li), base: core.Pick(rng, bases), kind: "range"}
+		if mi == 0 {
+			l.base = bases[li/len(directed)]
+			d := directed[li%len(directed)]
+			if strings.HasPrefix(l.base, "u") {
+				d = strings.ReplaceAll(strings.ReplaceAll(d, "-100", "7"), "-5", "5")
+			}
+			l.tlo, l.thi, l.scale = c05bounds(l.base)
+			l.levels = []string{d}
+			fd := ""
+			if l.base == "decimal64" {
+				fd = " fraction-digits 2;"
+			}
+			fmt.Fprintf(&y, "leaf %s { type %s {%s range \"%s\"; } }\n", l.name, l.base, fd, d)
+			leaves = append(leaves, l)
+			continue
+		}
 		if l.base == "string" {
 			l.kind = "length"
 			if rng.Chance(30) {
@@ -304,6 +324,8 @@ func c05module(c *core.Ctx, rng *core.Rng, mi int) {
 		}
 		addc(lo)
 		addc(hi)
+		addc(new(big.Int).Add(lo, big.NewInt(1)))
+		addc(new(big.Int).Sub(hi, big.NewInt(1)))
 		addc(big.NewInt(0))
 		for i := 0; i < 3; i++ {
 			span := new(big.Int).Add(new(big.Int).Sub(hi, lo), big.NewInt(1))
@@ -348,7 +370,7 @@ func c05module(c *core.Ctx, rng *core.Rng, mi int) {
 				if l.kind == "length" {
 					mv = big.NewInt(int64(utf8.RuneCountInString(g.(string))))
 				}
-				for _, path := range []string{"SetValue", "UpsertFrom(JSON)", "UpsertFrom(node)"} {
+				for _, path := range []string{"SetValue", "UpsertFrom(JSON)", "UpsertFrom(node)", "Constrain+UpsertFrom(JSON)", "Find?query+SetValue"} {
 					res := c05write(b, store, l.name, g, j, path)
 					tlo, thi := l.tlo, l.thi
 					lines = append(lines, fmt.Sprintf("c05 range %d %s %s %s %s", l.scale, tlo, thi, mv, strings.Join(levelHex, " ")))
@@ -455,6 +477,26 @@ func c05write(b *node.Browser, store map[string]interface{}, leaf string, goVal 
 		}
 	case "UpsertFrom(node)":
 		err = b.Root().UpsertFrom(nodeutil.ReflectChild(map[string]interface{}{leaf: goVal}))
+	case "Constrain+UpsertFrom(JSON)":
+		// a fresh root whose first use is a constrained copy
+		var sel *node.Selection
+		sel, err = b.Root().Constrain("depth=10")
+		if err == nil {
+			var n node.Node
+			n, err = nodeutil.ReadJSON(fmt.Sprintf(`{"%s":%s}`, leaf, jsonTxt))
+			if err == nil {
+				err = sel.UpsertFrom(n)
+			}
+		}
+	case "Find?query+SetValue":
+		var sel *node.Selection
+		sel, err = b.Root().Find(leaf + "?content=config")
+		if err == nil && sel == nil {
+			return "BAD-STORE:leaf-not-found"
+		}
+		if err == nil {
+			err = sel.SetValue(goVal)
+		}
 	}
 	after := fmt.Sprintf("%#v", store[leaf])
 	_, has := store[leaf]
